@@ -35,6 +35,18 @@ fn is_voter(m: &Model, id: u64) -> bool {
     }
     v
 }
+/// is `id` currently in the configuration (model side)?
+fn member_at(m: &Model, id: u64) -> bool {
+    let mut v = false;
+    let mut i = 0;
+    while i < m.n {
+        if m.present[i] && m.ids[i] == id {
+            v = true;
+        }
+        i += 1;
+    }
+    v
+}
 fn distinct_voters(m: &Model) -> (usize, usize) {
     // (number of distinct ids that have a voting entry, how many of those are active)
     let (v1, v2, v3) = (is_voter(m, 1), is_voter(m, 2), is_voter(m, 3));
@@ -80,8 +92,17 @@ pub fn health(ids: &[u64], vmask: u8, via: u8, rm: u8) {
     };
     // symbolic *arguments*, unconditional calls: ids 0..=3 (0 is never a member)
     let a1: u64 = kani::any(); let a2: u64 = kani::any(); let d1: u64 = kani::any(); let ld: u64 = kani::any();
-    kani::assume(a1 <= 3 && a2 <= 3 && d1 <= 3 && ld <= 3);
+    let ld0: u64 = kani::any(); // a leader announced BEFORE the removal (may be the node that is then removed)
+    kani::assume(a1 <= 3 && a2 <= 3 && d1 <= 3 && ld <= 3 && ld0 <= 3);
     ({
+        if via == 1 {
+            // activity reported BEFORE the later members join (a heartbeat from a node that is not a member yet)
+            let p1: u64 = kani::any();
+            let p2: u64 = kani::any();
+            kani::assume(p1 <= 3 && p2 <= 3);
+            mgr.mark_active(p1); m.active[p1 as usize] = true;
+            mgr.mark_inactive(p2); m.active[p2 as usize] = false;
+        }
         let mut i = first;
         while i < n {
             let _ = mgr.add_node(m.ids[i], String::new(), m.voter[i]);
@@ -90,6 +111,8 @@ pub fn health(ids: &[u64], vmask: u8, via: u8, rm: u8) {
         mgr.mark_active(a1); m.active[a1 as usize] = true;
         mgr.mark_active(a2); m.active[a2 as usize] = true;
         mgr.mark_inactive(d1); m.active[d1 as usize] = false;
+        mgr.update_node_role(ld0, NodeRole::Leader);
+        let ld0_member = member_at(&m, ld0);
         if rm >= 1 && rm <= 3 {
             let _ = mgr.remove_node(rm as u64);
             let mut i = 0;
@@ -110,9 +133,10 @@ pub fn health(ids: &[u64], vmask: u8, via: u8, rm: u8) {
             assert!(2 * act > total, "C33 healthy without a strict majority of distinct voters active");
         }
         // the report must not claim a leader nobody was told about
-        if ld == 0 {
-            assert!(!hs.has_leader, "C33 has_leader without any leader role");
-        }
+        // a leader is known iff some CURRENT member was told it is leader (a role left behind by a removed
+        // node, or given to a non-member, is not a known leader)
+        let want_leader = (ld0_member && ld0 != rm as u64) || member_at(&m, ld);
+        assert!(hs.has_leader == want_leader, "C33 has_leader disagrees with the leader roles of current members");
         vk_cover!(hs.healthy, "reach healthy");
         vk_cover!(!hs.healthy, "reach unhealthy");
     });
